@@ -213,18 +213,27 @@ static int run_mpi(int argc, char **argv) {
     vf_rng_t common; vf_rng_seed(&common, seed, 5);            /* same on all ranks: shapes of the rounds */
     int *gather = calloc((size_t)size * 3, sizeof(int)); char line[900]; int lp = 0; long agree = 0, spread_rounds = 0;
     for (int r = 0; r < rounds; r++) {
-        int shape = vf_randn(&common, 4); int heavy = (int)vf_randn(&common, (uint32_t)size);
+        int shape = vf_randn(&common, 6); int heavy = (int)vf_randn(&common, (uint32_t)size);
         int prior;
         switch (shape) {           /* who is ahead: one rank far ahead, everybody random, nobody, one rank idle */
         case 0: prior = (rank == heavy) ? maxprior / 2 + (int)vf_randn(&rng, (uint32_t)maxprior / 2 + 1) : (int)vf_randn(&rng, 3); break;
         case 1: prior = (int)vf_randn(&rng, (uint32_t)maxprior + 1); break;
         case 2: prior = 0; break;
-        default: prior = (rank == heavy) ? 0 : 1 + (int)vf_randn(&rng, 40); break;
+        case 3: prior = (rank == heavy) ? 0 : 1 + (int)vf_randn(&rng, 40); break;
+        default: {   /* one rank stops exactly on a power of two (a growth boundary of the registry), the others lag far behind */
+            uint32_t t = 2; while (t <= max_id) t <<= 1;
+            if (shape == 5 && t < 4096) t <<= 1;
+            prior = (rank == heavy) ? (int)(t - max_id) : 0; break; }
         }
         for (int k = 0; k < prior; k++) { ent_t *e = do_reserve("mpi-prior"); if (e && vf_chance(&rng, 600)) { parsec_taskpool_register(e->tp); e->st = ST_REGISTERED; n_register++; }
             if (e && e->st == ST_REGISTERED && vf_chance(&rng, 200)) { parsec_taskpool_unregister(e->tp); e->st = ST_UNREGISTERED; n_unregister++; } }
         uint32_t before = max_id;
         parsec_taskpool_sync_ids(); n_sync++;
+        {   /* between the synchronisation and this rank's next reservation: ids up to the global maximum that were never issued
+             * HERE must not resolve (and must not fault) — the registry of a lagging rank has just been extended */
+            int lb = (int)before, gmax = 0; MPI_Allreduce(&lb, &gmax, 1, MPI_INT, MPI_MAX, MPI_COMM_WORLD);
+            for (int x = gmax - 2; x <= gmax + 1; x++) if (x > (int)before && x >= 0) check_lookup((uint32_t)x, 3, "mpi-after-sync-before-reserve");
+        }
         ent_t *e = do_reserve("mpi-after-sync");
         int mine[3] = { e ? (int)e->id : -1, (int)before, prior };
         MPI_Allgather(mine, 3, MPI_INT, gather, 3, MPI_INT, MPI_COMM_WORLD);
